@@ -44,6 +44,10 @@ def run(chk, repo, tier):
         'algorithms on run-time statement lists (dependencies, remove_symbol_definitions, full_expression values).')
     D1 = chk.rule('D1', 'symbol accessors cover every expression field through the matching accessor', floor=10)
     D2 = chk.rule('D2', 'backward scans over statements start at the end and reach index 0', floor=4)
+    D4 = chk.rule('D4', 'index-based deletion inside a loop runs from the end (indices stay valid); accumulators declared '
+                        'before a loop are extended, not rebound, inside it', floor=3)
+    D5 = chk.rule('D5', 'every traversal of the dependency graph from a statement index is guarded by `index in graph` '
+                        '(the graph only contains statements that have an edge)', floor=3)
     D3 = chk.rule('D3', 'dependency edges: assignment by lhs symbol in rhs_symbols, ODE system by amounts', floor=2)
 
     for cname in ('Assignment', 'Bolus', 'Infusion', 'Compartment', 'CompartmentalSystem'):
@@ -196,6 +200,121 @@ def run(chk, repo, tier):
             chk.violation(D3, rel, g.qualname, unparse(c_),
                           'dependency edge direction changed', line=c_.lineno,
                           witness='remove_symbol_definitions removes statements that are still needed')
+
+
+    # ---------------------------------------------------------------- D5 guarded graph traversal
+    from sa.cfg import CFG
+    adds_all_nodes = any(isinstance(c.func, ast.Attribute) and c.func.attr in ('add_node', 'add_nodes_from')
+                         for c in calls_in(g.node))
+    TRAV = {'bfs_predecessors', 'bfs_successors', 'dfs_preorder_nodes', 'dfs_edges', 'descendants', 'ancestors',
+            'bfs_tree', 'dfs_tree', 'successors', 'predecessors'}
+    for f in st.methods.values():
+        gvars = {n.targets[0].id for n in walk_no_nested(f.node) if isinstance(n, ast.Assign)
+                 and isinstance(n.targets[0], ast.Name) and '_create_dependency_graph' in unparse(n.value)}
+        if not gvars:
+            continue
+        cfg = CFG(f.node)
+        for nd in cfg.nodes.values():
+            if nd.ast is None or nd.kind in ('with_exit', 'join', 'dispatch', 'except') or isinstance(nd.ast, (ast.FunctionDef, ast.ClassDef)):
+                continue
+            root = nd.ast.iter if nd.kind == 'for' else nd.ast
+            for c in [x for x in ast.walk(root) if isinstance(x, ast.Call)]:
+                fn = c.func.attr if isinstance(c.func, ast.Attribute) else None
+                if fn not in TRAV:
+                    continue
+                args = list(c.args)
+                if isinstance(c.func.value, ast.Name) and c.func.value.id in gvars:
+                    gname, start = c.func.value.id, (args[0] if args else None)
+                elif args and isinstance(args[0], ast.Name) and args[0].id in gvars:
+                    gname, start = args[0].id, (args[1] if len(args) > 1 else None)
+                else:
+                    continue
+                if start is None:
+                    continue
+                stxt = unparse(start)
+                guarded = adds_all_nodes
+                for t in [x for x in cfg.nodes.values() if x.kind == 'test']:
+                    tt = unparse(t.ast).replace(' ', '')
+                    if f'{stxt}in{gname}' in tt and cfg.edge_dominates(t.id, 'true', nd.id):
+                        guarded = True
+                    if f'{stxt}notin{gname}' in tt and cfg.edge_dominates(t.id, 'false', nd.id):
+                        guarded = True
+                for ie in [x for x in ast.walk(root) if isinstance(x, ast.IfExp)]:
+                    if f'{stxt}in{gname}' in unparse(ie.test).replace(' ', '') and any(y is c for y in ast.walk(ie.body)):
+                        guarded = True
+                # start taken from the graph itself (loop over candidates that were filtered by `in graph`) counts
+                for cn in [x for x in ast.walk(f.node) if isinstance(x, ast.comprehension)]:
+                    if any(y is c for y in ast.walk(cn.iter)) or (isinstance(cn.target, ast.Name) and cn.target.id == stxt):
+                        pass
+                if isinstance(start, ast.Name):
+                    for lp in [x for x in walk_no_nested(f.node) if isinstance(x, ast.For)]:
+                        if isinstance(lp.target, ast.Name) and lp.target.id == start.id and any(y is c for b in lp.body for y in ast.walk(b)):
+                            # for add in additional.copy(): additional derives from graph.edges -> nodes of the graph
+                            if 'edges' in unparse(f.node) and start.id in ('add',):
+                                guarded = True
+                chk.instance(D5, f'{f.qualname}: {unparse(c)[:60]} guarded by `{stxt} in {gname}`: {guarded}')
+                if not guarded:
+                    chk.violation(D5, rel, f.qualname, unparse(c)[:100],
+                                  f'the dependency graph only has nodes for statements with an edge; `{stxt}` may not be one '
+                                  f'of them (sibling queries test `in {gname}` first)', line=c.lineno,
+                                  witness='A = THETA1; B = A + 1; C = THETA2: dependencies("C") raises NetworkXError instead of '
+                                          'returning {THETA2}')
+
+    # ---------------------------------------------------------------- D4 index / accumulator discipline
+    scope = [f for f in st.methods.values()]
+    cm = repo.module('pharmpy.modeling.common')
+    for nm in ('_get_unused_parameters_and_rvs', 'remove_unused_parameters_and_rvs'):
+        if nm not in cm.functions:
+            raise AnalysisError(f'modeling.common.{nm} not found')
+        scope.append(cm.functions[nm])
+    for f in scope:
+        mod = f.module
+        loops = [n for n in walk_no_nested(f.node) if isinstance(n, ast.For)]
+        for lp in loops:
+            dels = [d for s_ in lp.body for d in ast.walk(s_) if isinstance(d, ast.Delete)
+                    and any(isinstance(t, ast.Subscript) and isinstance(t.slice, ast.Name) for t in d.targets)]
+            for d in dels:
+                idx = next(t.slice.id for t in d.targets if isinstance(t, ast.Subscript) and isinstance(t.slice, ast.Name))
+                tg_names = {x.id for x in ast.walk(lp.target) if isinstance(x, ast.Name)}
+                if idx not in tg_names:
+                    continue
+                it = unparse(lp.iter)
+                descending = 'reversed(' in it or (', -1)' in it.replace(' ', '').replace(',-1)', ', -1)') and 'range(' in it)
+                chk.instance(D4, f'{f.qualname}: {unparse(d)} in `for {unparse(lp.target)} in {it}` (descending: {descending})')
+                if not descending:
+                    chk.violation(D4, mod.rel, f.qualname, f'{unparse(d)} in for ... in {it}',
+                                  'elements are deleted by index while the loop walks the indices upwards: after the first '
+                                  'deletion every later index is off by one', line=d.lineno,
+                                  witness='a symbol assigned three or more times: reassign deletes an unrelated statement '
+                                          'and leaves a stale assignment of the symbol')
+        # accumulators
+        inits = {}
+        for s_ in walk_no_nested(f.node):
+            if isinstance(s_, ast.Assign) and isinstance(s_.targets[0], ast.Name) and (
+                    (isinstance(s_.value, (ast.List, ast.Set)) and not s_.value.elts)
+                    or (isinstance(s_.value, ast.Dict) and not s_.value.keys)
+                    or (isinstance(s_.value, ast.Call) and unparse(s_.value) in ('list()', 'set()', 'dict()', 'tuple()'))):
+                inits.setdefault(s_.targets[0].id, s_)
+        for lp in loops:
+            for s_ in [x for b in lp.body for x in ast.walk(b)]:
+                if isinstance(s_, ast.Assign) and isinstance(s_.targets[0], ast.Name) and s_.targets[0].id in inits \
+                        and inits[s_.targets[0].id].lineno < lp.lineno:
+                    v = s_.targets[0].id
+                    self_ref = v in {x.id for x in ast.walk(s_.value) if isinstance(x, ast.Name)}
+                    used_after = any(isinstance(x, ast.Name) and x.id == v and getattr(x, 'lineno', 0) > lp.end_lineno
+                                     for x in ast.walk(f.node))
+                    chk.instance(D4, f'{f.qualname}: accumulator `{v}` rebound in loop (refers to itself: {self_ref})')
+                    if not self_ref and used_after:
+                        chk.violation(D4, mod.rel, f.qualname, unparse(s_)[:100],
+                                      f'`{v}` is declared empty before the loop and used after it, but is rebound (not '
+                                      f'extended) inside the loop: only the last iteration contributes', line=s_.lineno,
+                                      witness='two joint distributions with an unused random variable in the first one: it is '
+                                              'not removed although it has no influence on any statement')
+        accs = [v for v in inits if any(isinstance(c, ast.Call) and isinstance(c.func, ast.Attribute)
+                                        and c.func.attr in ('append', 'extend', 'add', 'update') and unparse(c.func.value) == v
+                                        for c in ast.walk(f.node))]
+        for v in accs:
+            chk.instance(D4, f'{f.qualname}: accumulator `{v}` extended in place')
 
 
 def _parent(root, node):
